@@ -16,7 +16,9 @@ import (
 	"context"
 	"encoding/json"
 	"fmt"
+	"math"
 	"math/rand"
+	"net/http"
 	"os"
 	"sort"
 	"strings"
@@ -69,10 +71,23 @@ type aSource struct {
 	Series []aSeries `json:"series"`
 }
 
+// aTenant is one tenant of the receiver part of a world; aRecv the receiver: its external labels
+// are the head's, every tenant's store adds tlabel=<tenant id> (overriding a same-named one).
+type aTenant struct {
+	ID     string    `json:"id"`
+	Series []aSeries `json:"series"`
+}
+
+type aRecv struct {
+	TLabel  string    `json:"tlabel"`
+	Tenants []aTenant `json:"tenants"`
+}
+
 type aWorld struct {
 	W      int64     `json:"W"`
 	Head   aSource   `json:"head"`
 	Blocks []aSource `json:"blocks"`
+	Recv   aRecv     `json:"recv"`
 }
 
 type aMatcher struct {
@@ -188,6 +203,9 @@ type built struct {
 	tsdbs   map[int]*store.TSDBStore
 	buckets map[string]*store.BucketStore
 	nb      int
+	promAPI http.Handler
+	proms   map[string]*store.PrometheusStore
+	rcv     *world.Receiver
 }
 
 func scratchRoot() string {
@@ -205,7 +223,7 @@ func buildWorld(w aWorld) (*built, error) {
 	if err != nil {
 		return nil, err
 	}
-	b := &built{dir: dir, w: w, tsdbs: map[int]*store.TSDBStore{}, buckets: map[string]*store.BucketStore{}}
+	b := &built{dir: dir, w: w, tsdbs: map[int]*store.TSDBStore{}, buckets: map[string]*store.BucketStore{}, proms: map[string]*store.PrometheusStore{}}
 	ok := false
 	defer func() {
 		if !ok {
@@ -232,6 +250,9 @@ func (b *built) Close() {
 	for _, s := range b.buckets {
 		_ = s.Close()
 	}
+	if b.rcv != nil {
+		b.rcv.Close()
+	}
 	if b.db != nil {
 		_ = b.db.Close()
 	}
@@ -250,6 +271,57 @@ func (b *built) tsdbStore(frame int) *store.TSDBStore {
 	s := world.NewTSDBStore(b.db, b.w.Head.ext(), opts...)
 	b.tsdbs[frame] = s
 	return s
+}
+
+// promStore returns the sidecar layout: a PrometheusStore (external labels = the head's) in front
+// of the real Prometheus API over the head's TSDB. old = Prometheus without matcher support in the
+// label calls; samples = sampled instead of streamed remote read.
+func (b *built) promStore(old, samples bool) (*store.PrometheusStore, error) {
+	key := fmt.Sprintf("%v/%v", old, samples)
+	if s, ok := b.proms[key]; ok {
+		return s, nil
+	}
+	if b.promAPI == nil {
+		b.promAPI = world.PrometheusAPI(b.db)
+	}
+	mint := int64(math.MaxInt64)
+	for _, sr := range b.w.Head.Series {
+		for _, k := range sr.Slots {
+			if chunkMin(k) < mint {
+				mint = chunkMin(k)
+			}
+		}
+	}
+	ver := "2.45.0"
+	if old {
+		ver = "2.20.0"
+	}
+	s, err := world.NewPrometheusStore(b.promAPI, b.w.Head.ext(), world.PromOpts{Version: ver, MinTime: mint})
+	if err != nil {
+		return nil, err
+	}
+	if samples {
+		store.VerifRemoteReadSamplesOnly(s)
+	}
+	b.proms[key] = s
+	return s, nil
+}
+
+// receiver returns the receiver layout of the world (built on first use).
+func (b *built) receiver() (*world.Receiver, error) {
+	if b.rcv != nil {
+		return b.rcv, nil
+	}
+	var tenants []world.Tenant
+	for _, t := range b.w.Recv.Tenants {
+		tenants = append(tenants, world.Tenant{ID: t.ID, Series: aSource{Series: t.Series}.series()})
+	}
+	r, err := world.NewReceiver(b.dir+"/recv", b.w.Head.ext(), b.w.Recv.TLabel, slotW, tenants)
+	if err != nil {
+		return nil, err
+	}
+	b.rcv = r
+	return r, nil
 }
 
 // bucketStore returns the (cached) bucket store with the given configuration.
@@ -354,6 +426,17 @@ func seriesReq(r aReq, rbatch int) *storepb.SeriesRequest {
 	}
 }
 
+// seriesReqOpt additionally sets SkipChunks and (never result-changing) query hints.
+func seriesReqOpt(r aReq, rbatch int, skip, hints bool) *storepb.SeriesRequest {
+	q := seriesReq(r, rbatch)
+	q.SkipChunks = skip
+	if hints {
+		q.QueryHints = &storepb.QueryHints{StepMillis: 60000, Func: &storepb.Func{Name: "rate"}, Range: &storepb.Range{Millis: 300000},
+			Grouping: &storepb.Grouping{By: true, Labels: []string{"a"}}}
+	}
+	return q
+}
+
 // ------------------------------------------------------------------------------------------
 // generation: TLC's abstract worlds/requests + seeded random ones -> concrete cases
 
@@ -451,6 +534,12 @@ func concretise(rnd *rand.Rand, aw absWorld) aWorld {
 	if rnd.Intn(2) == 0 {
 		w.Blocks = append(w.Blocks, aSource{Ext: blockExt(variantExt(rnd, ext)), Series: subsetSeries(rnd, aw.Series, false)})
 	}
+	// receiver: tenant label from the common universe (so that it collides with stored, external and
+	// replica labels), tenant ids from the value universe; the second tenant may be empty
+	w.Recv = aRecv{TLabel: []string{"c", "r", "a"}[rnd.Intn(3)], Tenants: []aTenant{
+		{ID: "x", Series: subsetSeries(rnd, aw.Series, true)},
+		{ID: "e", Series: subsetSeries(rnd, aw.Series, false)},
+	}}
 	return w
 }
 
